@@ -100,7 +100,21 @@ def restricted_cases(rng, n, keep_term=False):
         e = ("supp", it_ok, sql_ok, ("ref", col))
         supporting = [x for x in mp.ENGINES if (x[0] == "it") == it_ok]
         opts = (rng.choice(supporting + [eng, None]), rng.random() < 0.7, rng.random() < 0.35, rng.random() < 0.3)
-        kind = rng.choice(["calc", "sel", "sort"])
+        kind = rng.choice(["calc", "sel", "sort", "join"])
+        if kind == "join":
+            # a join predicate holding the restricted function: alone, or inside a compound that folds to true
+            atom = ("cmp", "lt", e, ("lit", 1))
+            pred = rng.choice([atom, ("or", [("plit", True), atom]), ("not", ("and", [("plit", False), atom])),
+                               ("and", [("plit", True), ("or", [atom, ("plit", True)])])])
+            other = mp.gen_leaf(rng, 91, sorted({c for c in rel.columns if c.is_key and rng.random() < 0.6} | {enc.K(9)}), eng, special=0)
+            q = ("join", pred, rng.random() < 0.7, False, p, other) if rng.random() < 0.5 else ("join", pred, rng.random() < 0.7, False, other, p)
+            _w2, _rel2, res2 = mp.run_build(q)
+            t = enc.cresult(res2[0], enc.ctree(res2[1]) if res2[0] == "ok" else res2[1])
+            key = "accepted" if res2[0] == "ok" else res2[1]
+            outcomes[key] = outcomes.get(key, 0) + 1
+            out.append({"json": {"program": jsonable(q), "impl": jsonable(res2), **({"program_term": q} if keep_term else {})},
+                        "coq": f"SUPCase {mp.cprog(q)} {t}", "nontrivial": True, "key": mp.cprog(q)})
+            continue
         if kind == "calc":
             o = ("calc", gen.fresh_tag(rng, set(rel.columns)), ("add", e, ("lit", 1)))
         elif kind == "sel":
@@ -158,6 +172,62 @@ def make_cases(rng, tier):
     return cases, extra_bad, kinds
 
 
+def reused_predicate_histories(rng, n):
+    """The SAME predicate / expression objects used in several requests: an ill-formed request is rejected again after
+    the object has been part of other calls — accepted ones (joins, selections in another relation) and rejected ones."""
+    import lsst.daf.relation as dr
+    bad, done = [], 0
+    for _ in range(n):
+        w = mp.World()
+        eng = rng.choice(mp.ENGINES)
+        a, x, y, z = enc.K(1), enc.N(1), enc.N(2), enc.N(3)
+        A = mp.build_impl(("leaf", 1, eng, sorted([a, x]), [{a: 1, x: 5}], (0, None)), w)
+        B = mp.build_impl(("leaf", 2, eng, sorted([a, y]), [{a: 1, y: 7}], (0, None)), w)
+        C = mp.build_impl(("leaf", 3, eng, [a], [{a: 1}], (0, None)), w)
+        atom = ("cmp", "lt", ("ref", x), ("ref", y))
+        shape = rng.choice([atom, ("and", [atom, ("cmp", "ge", ("ref", a), ("lit", 0))]), ("or", [atom, ("pref", a)]),
+                            ("not", atom), ("in", ("add", ("ref", x), ("ref", y)), ("range", 0, 50, 1))])
+        P = enc.ipred(shape)
+        Q = enc.ipred(("cmp", "lt", ("ref", y), ("ref", z)))            # z exists nowhere
+
+        def rejected(call):
+            try:
+                call()
+            except dr.ColumnError:
+                return True
+            except Exception:  # noqa: BLE001
+                return False
+            return False
+        history = []
+        ok = rejected(lambda: A.with_rows_satisfying(P))
+        history.append(("A.with_rows_satisfying(P) rejected", ok))
+        steps = rng.sample(["join", "sel_elsewhere", "rejected_join", "partial"], rng.choice([1, 2, 3]))
+        for st in steps:
+            try:
+                if st == "join":
+                    A.join(B, P)
+                elif st == "sel_elsewhere":
+                    A.join(B).with_rows_satisfying(P)
+                elif st == "partial":
+                    dr.Join(P).partial(B).apply(A)
+                else:
+                    rejected(lambda: A.join(B, Q))
+            except Exception:  # noqa: BLE001 — e.g. an iteration-engine join that the engine refuses: irrelevant here
+                pass
+            history.append((st, None))
+        for what, call in (("A.with_rows_satisfying(P)", lambda: A.with_rows_satisfying(P)),
+                           ("C.with_rows_satisfying(P)", lambda: C.with_rows_satisfying(P)),
+                           ("B.with_rows_satisfying(Q)", lambda: B.with_rows_satisfying(Q)),
+                           ("C.join(A, Q)", lambda: C.join(A, Q))):
+            r = rejected(call)
+            history.append((what + " rejected", r))
+            if not r:
+                bad.append({"predicate": jsonable(shape), "engine": list(eng), "history": history[:], "problem": what + " was not rejected with ColumnError"})
+                break
+        done += 1
+    return done, bad
+
+
 def run(ctx):
     rng = random.Random(ctx.seed)
     s1 = core.s1(ctx, ["Slice"], "Properties.C20", THEOREMS, extra_targets=["Model/CheckStruct.vo"])
@@ -175,6 +245,9 @@ def run(ctx):
                              4: "an operation was accepted into an engine that does not support its expression, or refused with "
                                 "another class than EngineError"})
     found |= rsumm["spec_failures"] > 0
+    nhist, hbad = reused_predicate_histories(rng, 60 if ctx.tier == "quick" else 1200)
+    for b in hbad[:3]:
+        found |= ctx.failing_case({"kind": "ill-formed-request-accepted-after-a-history", "case": b}, None)
     core.conclude_s1(ctx, s1, found or bool(ctx.violations))
     ctx.coverage.update({
         "evaluations": len(cases), "distinct_nontrivial": len({c["key"] for c in cases}),
@@ -183,6 +256,7 @@ def run(ctx):
                 "with the model's; existing relations are fingerprinted before and after; every case is non-trivial",
         "edit_kinds": kinds, "traces_validated_against_impl": summ["evaluated"] + rsumm["evaluated"], "judgement": summ,
         "engine_restricted_with_options": {"judgement": rsumm, "outcomes": routcomes},
+        "histories_reusing_predicate_objects": {"run": nhist, "with_an_accepted_ill_formed_request": len(hbad)},
         "samples": [cases[0]["json"], cases[-1]["json"]],
     })
     ctx.assumptions += ["when a request is ill-formed twice over (binary operation onto a sorted, unsliced SQL relation) either "
